@@ -1,4 +1,5 @@
 import MitmVerif.Model.C20
+import MitmVerif.Model.C20_B64
 import Driver.Proto
 open MitmVerif Driver MitmVerif.C20
 
@@ -20,6 +21,7 @@ def showCps (t : Text) : String := if t.isEmpty then "-" else ".".intercalate (t
 /-- library answers supplied with the case: `d:<tok>:<res|!>`, `s:<bytes>:<text>`, `h:<hash>:<pw>:<0|1>` -/
 structure LibTab where
   d : List (Text × Option Text) := []
+  u : List (List Nat × Text) := []
   s : List (Bytes × Text) := []
   h : List ((Text × Text) × Bool) := []
 
@@ -29,6 +31,9 @@ def parseLibEntry (t : LibTab) (e : String) : Option LibTab :=
     let k ← parseCps k
     if v = "!" then pure { t with d := (k, none) :: t.d }
     else let v ← parseCps v; pure { t with d := (k, some v) :: t.d }
+  | ["u", k, v] => do
+    let k ← hexOr k; let v ← parseCps v
+    pure { t with u := (k.map (·.toNat), v) :: t.u }
   | ["s", k, v] => do
     let k ← hexOr k; let v ← parseCps v
     pure { t with s := (k, v) :: t.s }
@@ -44,9 +49,10 @@ def parseLib (s : String) : Option LibTab :=
 def mkLib (t : LibTab) (alt : Bool) : Lib where
   isSpace := genIsSpace
   lower := genLower
-  decodeCred := fun k => match t.d.lookup k with
+  -- a2b_base64 and str.encode are the model's own (C20_B64); only the UTF-8 "replace" decoder is answered per case
+  decodeCred := B64.decodeCredWith (fun bs => match t.u.lookup bs with
     | some r => r
-    | none => if alt then some [97, 58, 98] else none
+    | none => if alt then [97, 58, 98] else [0x110000])
   sockDecode := fun k => match t.s.lookup k with
     | some r => r
     | none => if alt then [0x110000] else []
@@ -172,6 +178,29 @@ def stepLine (line : String) : String :=
         | some (u, p) => "ok " ++ showCps u ++ " " ++ showCps p
         | none => "err")) t
     | _, _ => "bad-op"
+  | ["b64", h] =>
+    match hexOr h with
+    | some b => match B64.a2b (b.map (·.toNat)) with
+      | some r => "ok " ++ showBytes (r.map UInt8.ofNat)
+      | none => "err"
+    | none => "bad-op"
+  | ["b2a", h] =>
+    match hexOr h with
+    | some b => showBytes ((B64.b2a (b.map (·.toNat))).map UInt8.ofNat)
+    | none => "bad-op"
+  | ["enc", t] =>
+    match parseCps t with
+    | some t => showBytes ((B64.utf8enc t).map UInt8.ofNat)
+    | none => "bad-op"
+  | ["mkauth", u, p] =>
+    match parseCps u, parseCps p with
+    | some u, some p => showCps (B64.mkauth u p)
+    | _, _ => "bad-op"
+  | ["resp", b] =>
+    if b ≠ "0" ∧ b ≠ "1" then "bad-op" else
+    let r := B64.authRequiredResponse (b = "1")
+    toString r.status ++ " " ++ showBytes (strBytes r.challengeName) ++ " " ++ showBytes (strBytes r.challengeValue) ++ " " ++
+      showBytes (strBytes r.body)
   | op :: val :: modes :: lib :: evs =>
     if op ≠ "conn" ∧ op ≠ "hook" then "bad-op" else
     match parseVal val, (modes.splitOn ",").mapM parseMode, parseLib lib, evs.mapM parseEv with
